@@ -30,6 +30,13 @@ func main() {
 		code := h.RunCheck(os.Args[2], os.Args[3], *procs, *budget)
 		h.CleanupScratch()
 		os.Exit(code)
+	case "racepass":
+		reps := 10
+		if len(os.Args) > 2 {
+			fmt.Sscanf(os.Args[2], "%d", &reps)
+		}
+		h.RacePassMain(reps)
+		h.CleanupScratch()
 	case "scenarios":
 		for _, n := range h.ScenarioNames("") {
 			fmt.Println(n)
